@@ -355,9 +355,13 @@ def _enclosed_by_struct_handler(f: FuncInfo, node: ast.AST) -> bool:
 
 # --------------------------------------------------------------------------- R5 / R6
 def _lenient_accessors(model: Model, rep: Report) -> None:
-    """C13-R5: the safe_* converters hand back only what they converted - never a raw operand.  They are the type barrier
-    between content-stream operands and the arithmetic of the interpreter."""
-    r5 = rep.rule("C13-R5", "DEPEND", "casting.safe_*: every returned component is a value produced by safe_float/safe_int (or by another safe_* helper), never one of the raw parameters", 5)
+    lenient_accessors_rule(model, rep, "C13-R5")
+
+
+def lenient_accessors_rule(model: Model, rep: Report, rid: str) -> None:
+    """The safe_* converters hand back only what they converted - never a raw operand - and in the order given.  They are the
+    type barrier between content-stream operands and the arithmetic / colours of the interpreter."""
+    r5 = rep.rule(rid, "DEPEND", "casting.safe_*: every returned component is the converted value of the parameter in the same position (no raw operand, no re-ordering, no other function of the operands)", 5)
     CONV = {"safe_float", "safe_int", "float", "int"}
     for q, f in sorted(model.funcs.items()):
         if not q.startswith("pdfminer.casting.") or isinstance(f.node, ast.Lambda) or f.name in ("safe_int", "safe_float"):
@@ -378,6 +382,19 @@ def _lenient_accessors(model: Model, rep: Report) -> None:
                 r5.check(ok, site(f, ret), q, unparse(ret)[:80], why=f"returns the result of `{callee}`, which is not one of the converters")
                 continue
             elts = v.elts if isinstance(v, ast.Tuple) else [v]
+            # positional: the k-th component is the local converted from the k-th parameter
+            src_of = {}
+            for n2 in walk_no_nested(f.node):
+                if isinstance(n2, ast.Assign) and isinstance(n2.value, ast.Call) and (dotted(n2.value.func) or "").split(".")[-1] in CONV and n2.value.args and isinstance(n2.value.args[0], ast.Name):
+                    for t2 in n2.targets:
+                        if isinstance(t2, ast.Name):
+                            src_of[t2.id] = n2.value.args[0].id
+            plist = [p_ for p_ in f.params]
+            if isinstance(v, ast.Tuple) and len(elts) == len(plist):
+                order_bad = [unparse(e) for k_, e in enumerate(elts) if not (isinstance(e, ast.Name) and src_of.get(e.id) == plist[k_])]
+                if order_bad:
+                    r5.violation(site(f, ret), q, unparse(ret)[:80], f"component(s) {order_bad} are not the converted parameter of the same position: colours / rectangles come out re-ordered or altered (this helper also serves the CMYK operators)")
+                    continue
             raw = [unparse(e) for e in elts if not (isinstance(e, ast.Name) and e.id in conv_locals)]
             r5.check(not raw, site(f, ret), q, unparse(ret)[:80], why=f"component(s) {raw} are not converted values" + (": a raw operand (for example the string `(20)`, which float() accepts) flows into matrix arithmetic and raises TypeError there" if any(x in params for x in raw) else ""))
 
